@@ -114,9 +114,15 @@ impl Header {
   pub fn create_cart_state(&self) -> Box<dyn CartState> {
     match self.cart_type {
       0x00 => Box::new(NullCartState::new()),
-      0x01 | 0x02 | 0x03 => Box::new(MBC1CartState::new()),
+      0x01 | 0x02 | 0x03 => Box::new(MBC1CartState::new(
+        self.get_rom_bank_count(),
+        self.get_ram_size_bytes() / 0x2000,
+      )),
       
-      0x11 | 0x12 | 0x13 => Box::new(MBC3CartState::new()),
+      0x11 | 0x12 | 0x13 => Box::new(MBC3CartState::new(
+        self.get_rom_bank_count(),
+        self.get_ram_size_bytes() / 0x2000,
+      )),
 
       _ => panic!("Unsupported cart type"),
     }
@@ -176,15 +182,21 @@ pub struct MBC1CartState {
   ram_bank: usize,
   ram_enabled: bool,
   select_ram: bool,
+  /// number of 16KB ROM banks actually present on the cartridge
+  rom_banks: usize,
+  /// number of 8KB RAM banks actually present on the cartridge
+  ram_banks: usize,
 }
 
 impl MBC1CartState {
-  fn new() -> Self {
+  fn new(rom_banks: usize, ram_banks: usize) -> Self {
     MBC1CartState {
       rom_bank: 1,
       ram_bank: 0,
       ram_enabled: false,
       select_ram: false,
+      rom_banks,
+      ram_banks,
     }
   }
 }
@@ -204,22 +216,20 @@ impl CartState for MBC1CartState {
   }
 
   fn get_rom_bank(&self) -> usize {
-    if self.select_ram {
-      self.rom_bank
-    } else {
-      let bank_high = self.ram_bank << 5;
-      let mut bank = self.rom_bank;
-      if bank == 0 {
-        bank = 1;
-      }
-      bank |= bank_high;
-      bank
+    let mut bank = self.rom_bank;
+    if bank == 0 {
+      bank = 1;
     }
+    if !self.select_ram {
+      bank |= self.ram_bank << 5;
+    }
+    // banks beyond the size of the cartridge wrap around
+    bank % self.rom_banks
   }
 
   fn get_ram_bank(&self) -> usize {
-    if self.select_ram {
-      self.ram_bank
+    if self.select_ram && self.ram_banks > 0 {
+      self.ram_bank % self.ram_banks
     } else {
       0
     }
@@ -238,14 +248,20 @@ pub struct MBC3CartState {
   rom_bank: usize,
   ram_bank: usize,
   ram_enabled: bool,
+  /// number of 16KB ROM banks actually present on the cartridge
+  rom_banks: usize,
+  /// number of 8KB RAM banks actually present on the cartridge
+  ram_banks: usize,
 }
 
 impl MBC3CartState {
-  pub fn new() -> Self {
+  pub fn new(rom_banks: usize, ram_banks: usize) -> Self {
     Self {
       rom_bank: 1,
       ram_bank: 0,
       ram_enabled: false,
+      rom_banks,
+      ram_banks,
     }
   }
 }
@@ -272,10 +288,15 @@ impl CartState for MBC3CartState {
     if bank == 0 {
       bank = 1;
     }
-    bank
+    // banks beyond the size of the cartridge wrap around
+    bank % self.rom_banks
   }
 
   fn get_ram_bank(&self) -> usize {
-    self.ram_bank
+    if self.ram_banks > 0 {
+      self.ram_bank % self.ram_banks
+    } else {
+      0
+    }
   }
 }
